@@ -32,10 +32,12 @@
 
 using namespace rkcommon;
 
-static const char *NAMES[] = {"render", "frame", "commit", "load.scene", "a", "B_2", "wait-for-gpu", "x y", "tile[3]", "io/read", "n10", "n11"};
-static const char *CATS[] = {"rk", "app", "io", "c3"};
-static const char *TNAMES[] = {"worker-0", "worker-1", "io thread", "main", "t4", "t5", "t6", "t7", "t8"};
-static const char *PNAMES[] = {"proc", "my process", "p2"};
+static const char *NAMES[] = {"render", "frame", "commit", "load.scene", "a", "B_2", "wait-for-gpu", "x y", "tile[3]", "io/read", "n10", "n11",
+    // names a JSON writer has to escape: a quote, a backslash, control characters
+    "load \"scene.obj\"", "C:\\data\\mesh", "line1\nline2\ttab", "ctrl\x01" "end"};
+static const char *CATS[] = {"rk", "app", "io", "c3", "a\"b\\c"};
+static const char *TNAMES[] = {"worker-0", "worker-1", "io thread", "main", "t4", "t5", "t6", "t7", "t8", "thread \"9\""};
+static const char *PNAMES[] = {"proc", "my process", "p2", "proc\\with \"quotes\""};
 
 static std::string g_exitOut;
 static const char *g_exitName = nullptr;
